@@ -16,6 +16,24 @@ CHECKS = {
         note="Trusted: Fq layer exactness (C02/C03), Z[x]->Fq[x] transfer, Frobenius automorphism facts, clang -O1 vs -Ofast, z3.",
         tech="LLVM-IR symbolic execution, polynomial-identity VCs mod q in z3 (QF_NIA), bit-vector VCs for table indices",
         ref="5/C04"),
+    "C05": dict(
+        cat="proof",
+        text="Jacobian add, mixed add, doubling, negation, equality, is_zero and affine<->projective conversion of G1 and G2 are symbolically "
+             "executed from the IR for every case parametrisation {O+O,O+Q,P+O,P+P,P+(-P),x1!=x2,y=0} x every representation {z free, z=1, z=0 "
+             "with free x,y, affine}; branches are decided by identities / solver-checked factor certificates; results are compared with the "
+             "chord-and-tangent law as cross-multiplied polynomial identities mod q in z3. No operand bound.",
+        note="Trusted: chord-and-tangent law is the group law and the case split is exhaustive on a curve (T4); base field exact (C02/C04); z3.",
+        tech="LLVM-IR symbolic execution over a ring of indeterminates, case parametrisation, polynomial-identity VCs mod q in z3",
+        ref="5/C05"),
+    "C18": dict(
+        cat="proof",
+        text="Aliasing patterns permitted by each signature are enumerated from the IR (non-noalias parameters of the output's type); every "
+             "(function, pattern) of Fq2/Fq6/Fq12 and of the G1/G2 point operations is symbolically executed with the output object being the "
+             "input object and z3 decides equality with the specification for all operand values; __restrict misuse between layers is an "
+             "interpreter assertion. Violations are replayed natively.",
+        note="Word layer (BigInt/Fp res==a) is covered by C03; C wrappers by C19. Whole-object aliasing only.",
+        tech="LLVM-IR symbolic execution under each aliasing configuration, polynomial-identity VCs mod q in z3",
+        ref="5/C18"),
 }
 
 NOT_APPLICABLE = {
